@@ -16,15 +16,11 @@ def k_unit(ctx):
             for now in range(start, start + 8):
                 clock = drive.VClock()
                 clock.now = now
-                old = _stop_run.time
-                _stop_run.time = clock
-                try:
+                with drive.patched_clock(clock):
                     st = _stop_run.StopRun(start, T, None, None)
                     st.update(-math.inf, [])
                     out = bool(st.check())
                     reads = len(clock.log)
-                finally:
-                    _stop_run.time = old
                 lits.append("(%s, %s, %s, %s, %s)" % (cz(start), cz(now), copt(T), cbool(out), cbool(reads == 1)))
                 cases.append(dict(start=start, now=now, max_time=T, impl=out, clock_reads=reads))
                 u.count((start, now, T), nontrivial=bool(T))
@@ -192,7 +188,8 @@ def run(ctx):
     gen_units.g_unit(ctx, "translate_driver")
     ctx.assumptions.append("the wall clock is replaced by a harness-controlled clock (the `time` name in search, _stop_run, "
                            "_times_tracker); the theorem holds for every sequence of readings")
-    k_unit(ctx)
+    import common as _common
+    _common.guarded(ctx, "K-unit", k_unit, ctx)
     d_unit_and_monitor(ctx, 90 if ctx.quick else 600)
 
 
